@@ -59,6 +59,10 @@ def run(ck: Check, repo: Repo) -> None:
     ck.rule("C03.5", "every advertised LAYER/NODE method can act: it contains a guarded architecture write or delegates to one that does")
     ck.rule("C03.6", "a randomly drawn kernel size never exceeds calc_max_kernel_sizes for that layer")
     ck.rule("C03.7", "mutation methods forwarded by a wrapper stay live: the owning module's method list is not emptied after its methods were re-advertised")
+    ck.rule("C03.8", "the rebuild consumes what the mutation wrote: every builder call in recreate_network / recreate_encoder receives each mutated "
+                     "architecture attribute of its class (keyword value, a **mapping local to the function that was updated with it, or a self-method that reads it)")
+    ck.rule("C03.9", "constructor and rebuild agree: an attribute built in __init__ and rebuilt in recreate_network uses the same builder with the same keyword set "
+                     "and the same values (constructor parameter p identified with the attribute it is stored in)")
     n_methods = 0
     n_writes = 0
     for modname, cname, table in SCOPE:
@@ -72,6 +76,8 @@ def run(ck: Check, repo: Repo) -> None:
     ck.floor("C03.1", n_methods, 24, "LAYER/NODE mutation methods in the 7 in-scope classes")
     ck.floor("C03.1", n_writes, 26, "architecture writes inside mutation methods")
     _kernel_bound(ck, repo)
+    _rebuild_consumes(ck, repo)
+    _build_agreement(ck, repo)
     _init_dict(ck, repo)
     _forwarded(ck, repo)
     _context(ck, repo)
@@ -234,7 +240,7 @@ def _kernel_bound(ck: Check, repo: Repo) -> None:
     cfg = CFG(fn.node)
     tb = TermBuilder(repo, fn, cfg=cfg, depth=0)
     draws = [c for c in calls_in(fn.node) if call_name(c) in ("np.random.randint", "np.random.choice")]
-    ck.floor("C03.6", len(draws), 1, "random kernel draw in change_kernel_size")
+    ck.floor("C03.6", len(draws), 1, "random kernel draw in change_kernel_size", fn=fn)
     for c in draws:
         n = cfg.node_of(c)
         hi = c.args[1] if len(c.args) > 1 else None
@@ -469,6 +475,231 @@ def _context(ck: Check, repo: Repo) -> None:
           "every advertised mutation method of a new module runs inside a MutationContext", construct="ModuleMeta wraps mutation methods")
 
 
+# ------------------------------------------------------------------------------------------------ C03.8 / C03.9
+def _reads_attr(repo: Repo, cls: Cls, fn: Fn, attr: str, depth: int = 2) -> bool:
+    for n in walk_no_nested(fn.node):
+        if isinstance(n, ast.Attribute) and n.attr == attr and dotted(n.value) == "self" and isinstance(n.ctx, ast.Load):
+            return True
+    if depth:
+        for c in calls_in(fn.node):
+            nm = call_name(c)
+            if nm.startswith("self.") and nm.count(".") == 1:
+                m = _find_method(repo, cls, nm[5:])
+                if m is not None and m is not fn and _reads_attr(repo, cls, m, attr, depth - 1):
+                    return True
+    return False
+
+
+def _find_method(repo: Repo, cls: Cls, name: str) -> Optional[Fn]:
+    for c in repo.mro(cls):
+        if name in c.methods:
+            return c.methods[name]
+    return None
+
+
+def _builder_sites(rec: Fn) -> List[Tuple[str, ast.Call, ast.AST]]:
+    """(self attribute, builder call, statement) for every call whose result ends up in self.<attr> inside rec."""
+    out = []
+    assigns = [n for n in walk_no_nested(rec.node) if isinstance(n, ast.Assign) and len(n.targets) == 1]
+    local_calls: Dict[str, List[Tuple[ast.Call, ast.AST]]] = {}
+    for a in assigns:
+        if isinstance(a.targets[0], ast.Name) and isinstance(a.value, ast.Call):
+            local_calls.setdefault(a.targets[0].id, []).append((a.value, a))
+    for a in assigns:
+        t = dotted(a.targets[0])
+        if not (t.startswith("self.") and t.count(".") == 1):
+            continue
+        attr = t[5:]
+        if isinstance(a.value, ast.Call):
+            used = {x.id for x in ast.walk(a.value) if isinstance(x, ast.Name)} & set(local_calls)
+            if used:
+                for u in sorted(used):
+                    for c, st in local_calls[u]:
+                        out.append((attr, c, st))
+            else:
+                out.append((attr, a.value, a))
+        elif isinstance(a.value, ast.Name) and a.value.id in local_calls:
+            for c, st in local_calls[a.value.id]:
+                out.append((attr, c, st))
+    return out
+
+
+_NOT_BUILDERS = {"deepcopy", "copy", "len", "list", "tuple", "dict", "getattr", "isinstance", "get", "pop", "get_activation"}
+
+
+def _rebuild_consumes(ck: Check, repo: Repo) -> None:
+    n = 0
+    for modname, cname, table in SCOPE:
+        cls = repo.cls(modname, cname)
+        rname = "recreate_encoder" if cname == "EvolvableNetwork" else "recreate_network"
+        rec = cls.methods.get(rname)
+        if rec is None:
+            continue
+        cfg = CFG(rec.node)
+        sites = [(a, c, st) for a, c, st in _builder_sites(rec) if call_name(c).split(".")[-1] not in _NOT_BUILDERS and call_name(c).split(".")[-1] != "preserve_parameters"]
+        # keep only the primary network attributes (those a builder call with keywords or a self-method produces)
+        for attr in table:
+            consumers = 0
+            for tgt, c, st in sites:
+                nm = call_name(c)
+                via = None
+                if any(k.arg and _mentions_attr(k.value, attr) for k in c.keywords) or any(_mentions_attr(a, attr) for a in c.args if not isinstance(a, ast.Starred)):
+                    via = "argument"
+                if via is None and nm.startswith("self.") and nm.count(".") == 1:
+                    m = _find_method(repo, cls, nm[5:])
+                    if m is not None and _reads_attr(repo, cls, m, attr):
+                        via = f"self-method {nm[5:]} reads self.{attr}"
+                splat = [k.value for k in c.keywords if k.arg is None]
+                splat_problem = None
+                if via is None and splat:
+                    for d in splat:
+                        if not isinstance(d, ast.Name):
+                            splat_problem = (f"the keyword mapping `{short(d, 60)}` is re-evaluated at the call: an item stored into an earlier evaluation "
+                                             f"of that expression (a property that builds its dictionary on every access) is lost")
+                            continue
+                        node = cfg.node_of(st)
+                        stores = [x for x in cfg.live_nodes() if x.kind == "stmt" and isinstance(x.ast, ast.Assign) and isinstance(x.ast.targets[0], ast.Subscript)
+                                  and dotted(x.ast.targets[0].value) == d.id and _mentions_attr(x.ast.value, attr)]
+                        if node is not None and any(cfg.dominates(x, node) for x in stores):
+                            via = f"**{d.id} updated with self.{attr}"
+                        else:
+                            splat_problem = f"`{d.id}` is not updated with self.{attr} before the call"
+                if via is None and not splat and not (nm.startswith("self.") and nm.count(".") == 1):
+                    # a builder of a part that does not depend on this attribute (e.g. the output layer sized by something else)
+                    continue
+                if via is None and splat_problem is None:
+                    continue
+                consumers += 1
+                n += 1
+                ck.ob("C03.8", rec, c, via is not None, f"{cname}.{rname}: the rebuilt `{tgt}` is constructed from the mutated self.{attr}",
+                      detail=(via or splat_problem or ""), construct=f"{cname}.{rname}: {tgt} <- {short(c.func, 40)} consumes {attr}")
+            ck.ob("C03.8", rec, rec.node, consumers > 0, f"{cname}.{rname} passes the mutated self.{attr} to a builder", construct=f"{cname}.{rname}: some builder consumes {attr}",
+                  detail="no builder call in the rebuild reads the attribute the mutation methods change: the advertised mutation would not change the architecture")
+    ck.floor("C03.8", n, 11, "builder calls consuming a mutated attribute")
+
+
+def _local_defs(fn: Fn) -> Dict[str, List[ast.AST]]:
+    out: Dict[str, List[ast.AST]] = {}
+    for a in walk_no_nested(fn.node):
+        if isinstance(a, ast.Assign):
+            for t in a.targets:
+                for x in ast.walk(t):
+                    if isinstance(x, ast.Name) and isinstance(x.ctx, ast.Store):
+                        out.setdefault(x.id, []).append(a.value if isinstance(t, ast.Name) else None)
+        elif isinstance(a, (ast.AugAssign, ast.AnnAssign)) and isinstance(a.target, ast.Name):
+            out.setdefault(a.target.id, []).append(None)
+        elif isinstance(a, (ast.For, ast.With)):
+            for x in ast.walk(a.target if isinstance(a, ast.For) else ast.Tuple(elts=[i.optional_vars for i in a.items if i.optional_vars is not None])):
+                if isinstance(x, ast.Name):
+                    out.setdefault(x.id, []).append(None)
+    return out
+
+
+def _canon(e: ast.AST, pmap: Dict[str, str], fn: Optional[Fn] = None, depth: int = 3) -> Optional[str]:
+    """Canonical text of e (self.a and the constructor parameter stored in a both become @a); None when a name in it cannot be followed."""
+    defs = _local_defs(fn) if fn is not None else {}
+    failed = []
+
+    class T(ast.NodeTransformer):
+        def visit_Attribute(self, n):
+            if dotted(n.value) == "self":
+                return ast.Name(id="@" + n.attr, ctx=ast.Load())
+            return self.generic_visit(n)
+
+        def visit_Name(self, n):
+            d = defs.get(n.id, [])
+            if n.id in pmap and not d:
+                return ast.Name(id="@" + pmap[n.id], ctx=ast.Load())
+            if len(d) == 1 and d[0] is not None and depth > 0 and n.id not in pmap:
+                sub = _canon(d[0], pmap, fn, depth - 1)
+                if sub is None:
+                    failed.append(n.id)
+                    return n
+                return ast.Name(id="(" + sub + ")", ctx=ast.Load())
+            if d:
+                failed.append(n.id)
+            return n
+    import copy
+    out = ast.unparse(T().visit(copy.deepcopy(e)))
+    return None if failed else out
+
+
+def _build_agreement(ck: Check, repo: Repo, rule: str = "C03.9") -> None:
+    pairs = 0
+    mods = ["agilerl.modules.mlp", "agilerl.modules.cnn", "agilerl.modules.lstm", "agilerl.modules.simba", "agilerl.modules.resnet",
+            "agilerl.modules.multi_input", "agilerl.networks.custom_modules"]
+    for modname in mods:
+        mod = repo.mod(modname)
+        for cls in mod.classes.values():
+            init = cls.methods.get("__init__")
+            rec = cls.methods.get("recreate_network")
+            if init is None or rec is None:
+                continue
+            params = set(init.named_params[1:])
+            # constructor parameter -> attribute it is stored in (identity stores in this __init__; same name through super().__init__)
+            pmap: Dict[str, str] = {p: p for p in params}
+            for a in walk_no_nested(init.node):
+                if isinstance(a, ast.Assign) and len(a.targets) == 1:
+                    t = dotted(a.targets[0])
+                    if t.startswith("self.") and t.count(".") == 1:
+                        src = _identity_of(a.value, params)
+                        if src is not None:
+                            pmap[src] = t[5:]
+            isites = [(a, c) for a, c, st in _builder_sites(init) if len(c.keywords) >= 2 or call_name(c).startswith("self.")]
+            rsites = [(a, c) for a, c, st in _builder_sites(rec) if call_name(c).split(".")[-1] != "preserve_parameters" and not dotted(c.func).endswith("preserve_params_fn")]
+            for attr, ic in isites:
+                cands = [rc for a2, rc in rsites if a2 == attr and call_name(rc) == call_name(ic)]
+                if not cands:
+                    continue
+                for rc in cands:
+                    pairs += 1
+                    ik = {k.arg: k.value for k in ic.keywords if k.arg}
+                    rk = {k.arg: k.value for k in rc.keywords if k.arg}
+                    defaults: Dict[str, ast.AST] = {}
+                    fdef = _callee_def(repo, cls, init, ic)
+                    if fdef is not None:
+                        a = fdef.args
+                        pos = a.posonlyargs + a.args
+                        for prm, d in zip(pos[len(pos) - len(a.defaults):], a.defaults):
+                            defaults[prm.arg] = d
+                        for prm, d in zip(a.kwonlyargs, a.kw_defaults):
+                            if d is not None:
+                                defaults[prm.arg] = d
+                    for k in sorted(set(ik) | set(rk)):
+                        if k in ik and k in rk:
+                            ci, cr = _canon(ik[k], pmap, init), _canon(rk[k], {}, rec)
+                            if ci is None or cr is None:
+                                ck.analysed.setdefault(rule + "_not_followed", []).append(f"{cls.name}.{attr} {k}: value goes through a reassigned local")
+                                continue
+                            ck.ob(rule, rec, rc, ci == cr, f"{cls.name}: `{attr}` is rebuilt with {k} as constructed",
+                                  detail=f"__init__ passes {k}={short(ik[k], 60)} (canonical {ci}); recreate_network passes {k}={short(rk[k], 60)} (canonical {cr})",
+                                  construct=f"{cls.name}.{attr}: {call_name(ic)}({k}=)")
+                        else:
+                            have, side = (ik[k], "recreate_network") if k in ik else (rk[k], "__init__")
+                            same_as_default = k in defaults and ast.unparse(defaults[k]) == ast.unparse(have)
+                            ck.ob(rule, rec, rc, same_as_default, f"{cls.name}: `{attr}` is built and rebuilt with the same keyword set ({k})",
+                                  detail=f"{side} omits `{k}` (builder default {ast.unparse(defaults[k]) if k in defaults else 'unknown'}), the other side passes {short(have, 60)}: "
+                                         f"after a mutation the live network no longer has the architecture the constructor description (init_dict) builds, "
+                                         f"so clone() / checkpoints cannot load the current weights",
+                                  construct=f"{cls.name}.{attr}: {call_name(ic)}({k}=)")
+                    ck.ob(rule, rec, rc, len(ic.args) == len(rc.args), f"{cls.name}: `{attr}` built and rebuilt with the same positional arguments",
+                          construct=f"{cls.name}.{attr}: {call_name(ic)} positional")
+    ck.floor(rule, pairs, 7, "(attribute, builder) pairs constructed in __init__ and rebuilt in recreate_network")
+
+
+def _callee_def(repo: Repo, cls: Cls, fn: Fn, call: ast.Call) -> Optional[ast.FunctionDef]:
+    nm = call_name(call)
+    if nm.startswith("self.") and nm.count(".") == 1:
+        m = _find_method(repo, cls, nm[5:])
+        return m.node if m is not None else None
+    try:
+        tgt = repo.resolve(fn.mod, nm)
+    except Exception:
+        tgt = None
+    node = getattr(tgt, "node", None)
+    return node if isinstance(node, (ast.FunctionDef,)) else None
+
+
 _MLP = "agilerl/modules/mlp.py"
 _CNN = "agilerl/modules/cnn.py"
 _LSTM = "agilerl/modules/lstm.py"
@@ -500,5 +731,10 @@ VARIANTS = [
     ("multiinput-latent-min", _MI, "if self.latent_dim - numb_new_nodes > self.min_latent_dim:", "if self.latent_dim > self.min_latent_dim:", "fire", "C03.1"),
     ("recreate-not-nested-only", _MB, "        if self.module._mutation_depth == 0:\n", "        if True:\n", "fire", "C03.3"),
     ("resnet-shrink-kw-dropped", _RES, "    def recreate_network(self, shrink_params: bool = False) -> None:", "    def recreate_network(self) -> None:", "fire", "C03.3"),
+    ("dueling-rebuild-drops-layernorm", "agilerl/networks/custom_modules.py", "            init_layers=self.init_layers,\n            layer_norm=self.layer_norm,\n            activation=self.activation,\n            noise_std=self.noise_std,\n            device=self.device,\n            new_gelu=self.new_gelu,\n            name=\"advantage\",\n        )\n\n        self.advantage_net = EvolvableModule", "            init_layers=self.init_layers,\n            activation=self.activation,\n            noise_std=self.noise_std,\n            device=self.device,\n            new_gelu=self.new_gelu,\n            name=\"advantage\",\n        )\n\n        self.advantage_net = EvolvableModule", "fire", "C03.9"),
+    ("encoder-config-property-store", _NB, "            init_dict = self.encoder.init_dict\n            init_dict[\"num_outputs\"] = self.latent_dim\n            encoder = self.encoder_cls(**init_dict)", "            self.encoder_config[\"num_outputs\"] = self.latent_dim\n            encoder = self.encoder_cls(**self.encoder_config)", "fire", "C03.8"),
+    ("encoder-rebuild-forgets-latent", _NB, "            init_dict[\"num_outputs\"] = self.latent_dim\n", "", "fire", "C03.8"),
+    ("encoder-rebuild-renamed-local-ok", _NB, "            init_dict = self.encoder.init_dict\n            init_dict[\"num_outputs\"] = self.latent_dim\n            encoder = self.encoder_cls(**init_dict)", "            enc_kwargs = self.encoder.init_dict\n            enc_kwargs[\"num_outputs\"] = self.latent_dim\n            encoder = self.encoder_cls(**enc_kwargs)", "silent", None),
+    ("mlp-rebuild-kw-order-ok", _MLP, "            new_gelu=self.new_gelu,\n            device=self.device,\n            name=self.name,\n        )\n\n        self.model = EvolvableModule", "            device=self.device,\n            new_gelu=self.new_gelu,\n            name=self.name,\n        )\n\n        self.model = EvolvableModule", "silent", None),
     ("mlp-numoutputs-misbound", _MLP, "        self.num_outputs = num_outputs\n", "        self.num_outputs = num_inputs\n", "fire", "C03.4"),
 ]
